@@ -11,6 +11,7 @@ DOCS.update({
     "dl2": "[{'k': u1}, [u2, u3], {'j': u2, 1: u3}, u1]",
     "d6": DEEP_DOC,
     "da": ALIAS_DOC,
+    "dsized": "{'a': [u2, u3], 'b': (3, 4, u2), 'c': 'xy', 'd': {1, 2}, 'e': b'abc', 'f': frozenset(), 'g': {'k': u1}, 'l': [(u3,), b'', 'z', [u1]]}",
 })
 MODS = [None, "length", "dtype", "map_keys", "map_values"]
 MULTIS = [None, "first", "last", "single", "all"]
@@ -172,6 +173,12 @@ def cases(ctx):
         out.append(case)
     for sh, mod, multi in [(("M", "c"), "length", "last"), (("l", "L"), "map_keys", "all"), (("X", "X"), "dtype", "first")]:
         out.append(mod_case(sh, "da", mod, multi, L))
+    # sized leaves other than str / list / dict (what YAML's !!set and !!binary load to, tuples from API users): `length` is defined
+    # for them, `dtype` is their exact type; with and without multiplicity modifiers, both orders
+    for mod, multi in (("length", None), ("length", "last"), ("dtype", "first"), ("length", "all")):
+        case = mod_case(("M",), "dsized", mod, multi, L)
+        out.append(case)
+    out.append(mod_case(("l", "L"), "dsized", "length", None, L))
     deep_mods = [(("a", "b", "c", "L"), "dtype", "last"), (("a", "b", "c", "1", "d", "L"), None, "first"), (("l", "4", "L"), "length", "all"),
                  (("X", "X", "X", "X"), "dtype", None), (("a", "b", "c", "1", "d", "4", "M"), "length", "single")]
     for sh, mod, multi in (deep_mods[:3] if ctx.quick else deep_mods):
